@@ -102,7 +102,7 @@ def bin_cmp_to_ret(ctx, f):
     return out
 
 
-def run(ctx):
+def _run(ctx):
     prog = ctx.prog
     # ------------------------------------------------------------ R1 lint
     fset = {}
@@ -327,3 +327,12 @@ def run(ctx):
             d_ = defining_call(f, c.args[1])
             okd = okd and n_ is not None and d_ is not None and tuple(n_[2])[-1:] == (0,) and tuple(d_[2])[-1:] == (1,)
         ctx.inst("C20.R6", "oracle-ratio-orientation", okd, "the ratio is (component 0 = total_liq) / (component 1 = total_col) of scaled_supplies()", "%d divisions" % len(divs), f.loc(f.raw["span"]))
+
+
+def run(ctx):
+    from .kernels import check_kernels
+    try:
+        _run(ctx)
+    finally:
+        # numeric kernels this property's formulas rest on, pinned as canonical expression trees
+        check_kernels(ctx, "C20.K", ['adjust_i64', 'adjust_u64', 'adjust_i128', 'collateral_to_liquidity', 'liquidity_to_collateral', 'drift-withdraw-token-amount', 'drift-adjust-oracle'])
